@@ -17,16 +17,42 @@ use std::time::Instant;
 /// and the harness writes through a duplicate of the original stdout.
 pub static OUT_FD: std::sync::atomic::AtomicI32 = std::sync::atomic::AtomicI32::new(1);
 
+pub static ERR_FD: std::sync::atomic::AtomicI32 = std::sync::atomic::AtomicI32::new(2);
+
 pub fn silence_library_stdout() {
     unsafe {
         let saved = libc::dup(1);
+        let saved_err = libc::dup(2);
         let null = libc::open(c"/dev/null".as_ptr(), libc::O_WRONLY);
-        if saved >= 0 && null >= 0 {
+        if saved >= 0 && saved_err >= 0 && null >= 0 {
             libc::dup2(null, 1);
+            // the crate's MLE estimator logs every optimiser iteration to the terminal (stderr)
+            libc::dup2(null, 2);
             libc::close(null);
             OUT_FD.store(saved, Ordering::SeqCst);
+            ERR_FD.store(saved_err, Ordering::SeqCst);
         }
     }
+}
+
+pub fn err_write(s: &str) {
+    let fd = ERR_FD.load(Ordering::SeqCst);
+    let b = s.as_bytes();
+    let mut off = 0;
+    while off < b.len() {
+        let r = unsafe { libc::write(fd, b[off..].as_ptr() as *const libc::c_void, b.len() - off) };
+        if r <= 0 {
+            break;
+        }
+        off += r as usize;
+    }
+}
+
+#[macro_export]
+macro_rules! errln {
+    ($($arg:tt)*) => {
+        $crate::core::err_write(&format!("{}\n", format!($($arg)*)))
+    };
 }
 
 pub fn out_write(s: &str) {
@@ -192,6 +218,8 @@ pub fn install_panic_hook() {
         let quiet = QUIET.with(|q| *q.borrow());
         LAST_PANIC.with(|p| *p.borrow_mut() = Some(format!("{} at {}", msg, loc)));
         if !quiet {
+            // fd 2 may point at /dev/null (library noise): report through the saved descriptor as well
+            err_write(&format!("harness thread panicked: {} at {}\n", msg, loc));
             default(info);
         }
     }));
@@ -706,7 +734,7 @@ pub fn replay<S: Scenario>(sc: &S, rf: &ReplayFile, known_file: &Path, path: &Pa
     let plan: S::Plan = match serde_json::from_value(rf.plan.clone()) {
         Ok(p) => p,
         Err(e) => {
-            eprintln!("replay: cannot decode plan: {}", e);
+            errln!("replay: cannot decode plan: {}", e);
             return 2;
         }
     };
